@@ -8,11 +8,15 @@ mod mod_test;
 
 fn print_help(env: &mut Env, help_doc: String, name: &str) -> CommandResult {
     if help_doc.is_empty() {
-        writeln!(env.out, "No documentation found for command: {}", name).unwrap();
-        CommandResult::Continue(None)
+        match writeln!(env.out, "No documentation found for command: {}", name) {
+            Ok(_) => CommandResult::Continue(None),
+            Err(error) => CommandResult::Error(error.to_string()),
+        }
     } else {
-        writeln!(env.out, "{}", &help_doc).unwrap();
-        CommandResult::Continue(Some(help_doc))
+        match writeln!(env.out, "{}", &help_doc) {
+            Ok(_) => CommandResult::Continue(Some(help_doc)),
+            Err(error) => CommandResult::Error(error.to_string()),
+        }
     }
 }
 
@@ -53,8 +57,10 @@ impl Command for CommandImpl {
                     if name == &self.name() || self.aliases().contains(name) {
                         print_help(context.env, self.help(), &self.name())
                     } else {
-                        writeln!(context.env.out, "Command: {} not found.", name).unwrap();
-                        CommandResult::Continue(None)
+                        match writeln!(context.env.out, "Command: {} not found.", name) {
+                            Ok(_) => CommandResult::Continue(None),
+                            Err(error) => CommandResult::Error(error.to_string()),
+                        }
                     }
                 }
             }
